@@ -99,6 +99,8 @@ def check(ctx):
     ctx.guard("C12.a SYMMETRIC-AGG", "affected-components", lambda: shared_subset(ctx))
     ctx.guard("C12.b NF-INVARIANCE", "costs", lambda: check_invariance(ctx))
     ctx.guard("C12.c NF-REVERSAL", "scores", lambda: check_reversal(ctx))
+    ctx.guard("C12.b LOG-SPACE", "GaussianCovCost", lambda: check_log_space(ctx))
+    ctx.guard("C12.b ADDITIVE-COST", "PELT", lambda: shared_additive(ctx))
     ctx.expect_min("C12.a SYMMETRIC-AGG", sum(1 for o in ctx.obs if o.rule == "C12.a SYMMETRIC-AGG" and o.status == "HOLDS"), 5)
     ctx.expect_min("C12.b NF-INVARIANCE", sum(1 for o in ctx.obs if o.rule == "C12.b NF-INVARIANCE"), 5)
 
@@ -504,6 +506,86 @@ def check_invariance(ctx):
     for clsname, tag, nf, cls in _each(ctx, [("skchange.anomaly_scores", "L2Saving", 2)]):
         sc = subst(nf, scale_map(cols2, a))
         ctx.check(nf_equal(sc, a * a * nf), rule, f"L2Saving|scale{tag}", cls.module.relpath, "the L2 saving is homogeneous of degree 2 under scaling", found=repr(sc), nontrivial=True)
+
+
+def shared_additive(ctx):
+    """Scaling the data by a > 0 adds N(s, e) * p * log a^2 to every Gaussian segment cost.  PELT's segmentation is
+    unchanged by that only because segment costs enter its recurrence ADDITIVELY (the terms of any full partition sum to
+    n * p * log a^2, the same for all partitions): a clipped, squared or otherwise transformed aggregate lets the scale
+    term change the argmin.  The additive form of the first block and of the candidate vector are obligations of C02 and
+    are re-run here."""
+    from . import c02
+
+    before = len(ctx.obs)
+    mins = dict(ctx.mins)
+    try:
+        c02.check(ctx)
+    except Undecided as u:
+        ctx.undecided("C12.b ADDITIVE-COST", "PELT", "", str(u))
+    ctx.mins = mins
+    kept = []
+    for o in ctx.obs[before:]:
+        if o.status == "UNDECIDED" and o.key == "instance-count":
+            continue
+        if ("BELLMAN" in o.rule and "candidates" in o.key) or ("DP-COVER" in o.rule and "first-block" in o.key) or o.status == "UNDECIDED":
+            o.rule = f"C12.b ADDITIVE-COST ({o.rule})"
+            kept.append(o)
+    ctx.obs[before:] = kept
+
+
+def check_log_space(ctx):
+    """The Gaussian covariance cost depends on the data scale only through log det(cov) = log det(cov/a^2) + 2p log a.
+    That identity survives floating point only if the determinant is never formed as a number: det(cov) scales as
+    a^(2p) and leaves the float64 range for a few dozen columns under an ordinary change of units, after which the cost
+    is inf / nan (or a spurious 'not positive definite' error) for one of X, aX and finite for the other.  Rule: on no
+    path of fit + evaluate is the determinant of a data-derived matrix materialised (np.linalg.det); the log-determinant
+    comes from slogdet / a Cholesky diagonal / eigenvalues, all of which stay in log space."""
+    rule = "C12.b LOG-SPACE"
+    from ..nf import atoms_of
+
+    cls = ctx.P.public_class("skchange.costs", "GaussianCovCost")
+    n_paths = 0
+    n_logdet = 0
+    bad = {}
+    for mode in ("optim", "fixed"):
+        ex = new_executor(ctx)
+
+        def thunk(ex, mode=mode):
+            X = data_sym(ex)
+            cuts = cuts_sym(ex, 2)
+            args = []
+            if mode == "fixed":
+                mean = Num(sym("mean0"), (Pdim,), "float")
+                cov = Num(sym("cov0"), (Pdim, Pdim), "float")
+                args = [TupleV([mean, cov])]
+            obj = ex.new_object(cls, args, {})
+            call_method(ex, obj, "fit", X)
+            return call_method(ex, obj, "evaluate", cuts)
+
+        paths = run(ctx, ex, thunk)
+        for p in paths:
+            n_paths += 1
+            for e in p.events:
+                if e.kind == "det_materialised":
+                    op = e.data["operand"]
+                    names = {a.args[0] for a in atoms_of(op.nf, deep=True).values() if a.kind == "sym"} if op.nf is not None else {"?"}
+                    if "X" in names or "?" in names:
+                        bad.setdefault(e.loc(), (mode, e))
+            if p.outcome == "return":
+                vals = [ex.cur_nf(p.value)] if isinstance(p.value, Num) and p.value.nf is not None else []
+                arr = getattr(p.value, "arr", None)
+                for st in getattr(arr, "stores", []) or []:
+                    sv = st.data.get("value")
+                    if isinstance(sv, Num) and sv.nf is not None:
+                        vals.append(sv.nf)
+                n_logdet += any(a.kind == "app" and a.args[0] == "logabsdet" for v in vals for a in atoms_of(v, deep=True).values())
+    for loc, (mode, e) in bad.items():
+        ctx.violation(rule, f"GaussianCovCost|{mode}|det", loc, "the determinant of a data-derived matrix is materialised as a float: it scales as a^(2p) with the data and overflows / underflows float64 for wide data, so the cost of aX is inf / nan / an error where that of X is finite", found="np.linalg.det(<data-derived matrix>)", expected="np.linalg.slogdet / sum(log(diag(cholesky))) / sum(log(eigvalsh))")
+    if not bad:
+        if n_logdet == 0:
+            ctx.undecided(rule, "GaussianCovCost", cls.module.relpath, "no returning path of the covariance cost contains a log-determinant term: the scenario does not reach the kernel")
+        else:
+            ctx.holds(rule, "GaussianCovCost", cls.module.relpath, f"no determinant is materialised on any of {n_paths} paths of fit + evaluate (optimal and fixed parameters); {n_logdet} returning paths carry log|det| from a log-space routine")
 
 
 def check_reversal(ctx):
